@@ -432,7 +432,16 @@ func (fc *FnCtx) havocTargets(st *State, targets []modTarget) {
 	for _, m := range targets {
 		switch m.kind {
 		case "field":
+			// a callee that may change a monitor-guarded field stands for the other
+			// threads' writes observed at its lock acquisition (see lockOp)
+			vol := len(fc.monitorsGuarding(m.addr)) > 0 && !fc.inAcquire
+			if vol {
+				fc.inAcquire = true
+			}
 			fc.havocAddr(st, m.addr)
+			if vol {
+				fc.inAcquire = false
+			}
 		case "obj":
 			stt := structOf(m.addr.T)
 			for i := 0; i < stt.NumFields(); i++ {
@@ -454,8 +463,12 @@ func (fc *FnCtx) havocTargets(st *State, targets []modTarget) {
 
 // keepPrefixes resolves the `allbut` tokens to heap-name prefixes.
 func (fc *FnCtx) keepPrefixes(con *Contract) []string {
+	return fc.keepPrefixesOf(con, con.ModAllBut)
+}
+
+func (fc *FnCtx) keepPrefixesOf(con *Contract, toks []string) []string {
 	var out []string
-	for _, tok := range con.ModAllBut {
+	for _, tok := range toks {
 		tok = strings.TrimSpace(tok)
 		switch {
 		case tok == "bytes":
@@ -488,6 +501,9 @@ func (c *Contract) allocates() bool {
 }
 
 func (fc *FnCtx) havocAddr(st *State, a *Addr) {
+	if a.Alt != nil {
+		unsup("havoc of a merged interior pointer")
+	}
 	if _, isArr := a.T.Underlying().(*types.Array); isArr {
 		unsup("modifies on array-typed field")
 	}
@@ -869,9 +885,13 @@ func (fc *FnCtx) verify() {
 	if con.HasMod && !con.ModAll {
 		fc.frameCheck(fr, st, pre, con, vars, retReach)
 	}
-	if con.ModAll && len(con.ModAllBut) > 0 {
+	if (con.ModAll && len(con.ModAllBut) > 0) || len(con.AlsoKeep) > 0 {
 		// everything with a kept prefix must be unchanged for objects allocated at entry
-		keep := fc.keepPrefixes(con)
+		var keep []string
+		if con.ModAll {
+			keep = fc.keepPrefixes(con)
+		}
+		keep = append(keep, fc.keepPrefixesOf(con, con.AlsoKeep)...)
 		names := make([]string, 0, len(fc.sorts))
 		for n := range fc.sorts {
 			names = append(names, n)
@@ -884,7 +904,7 @@ func (fc *FnCtx) verify() {
 					kept = true
 				}
 			}
-			if !kept {
+			if !kept || fc.volatileNames[name] {
 				continue
 			}
 			if cond := fc.frameCond(st, name, nil); cond != "" {
@@ -945,6 +965,10 @@ func (fc *FnCtx) frameCheck(fr *Frame, st, pre *State, con *Contract, vars map[s
 	}
 	sort.Strings(names)
 	for _, name := range names {
+		if fc.volatileNames[name] {
+			fc.assumption("A-MON-FRAME: the frame condition does not cover " + name + " (guarded by a monitor this function acquires: other threads may write it; its writes are governed by the monitor's invariant/history)")
+			continue
+		}
 		cond := fc.frameCond(st, name, targets)
 		if cond == "" {
 			continue
